@@ -447,3 +447,72 @@ pub fn run_conv_faults(case: &ConvCase) -> CaseReport {
     rep.nontrivial = fired_in_build && n > 0 && case.items.len() >= 2;
     rep
 }
+
+// ------------------------------------------------------------------ C17: conversions are deterministic
+
+/// The same ordered source converted twice (two caches, two differently seeded default hashers)
+/// must give the same cache: same entries in the same order, same capacity, and the same
+/// behaviour under the same history. (A map source has no order of its own: excluded.)
+pub fn run_conv_det(case: &ConvCase) -> CaseReport {
+    reset_case();
+    let _ = take_last_panic();
+    let mut rep = CaseReport::default();
+    rep.steps = case.ops.len();
+    let form = case.form % FORMS.len() as u8;
+    if form == 9 {
+        return rep;
+    }
+    let mk = || -> Vec<(TKey, TVal)> { case.items.iter().enumerate().map(|(j, k)| (TKey::new(*k), TVal::new(INIT + j as u32))).collect() };
+    let r = catch_unwind(AssertUnwindSafe(|| -> Option<Violation> {
+        let mut a = build(form, mk());
+        let mut b = build(form, mk());
+        let snap = |c: &C| -> (Vec<(u16, u32)>, usize, usize) { (c.iter().map(|(k, x)| (k.read(), x.read())).collect(), c.len(), c.cap()) };
+        if snap(&a) != snap(&b) {
+            return Some(Violation { prop: "C17", step: 0, msg: format!("two conversions ({}) of the same pairs (keys {:?}) give different caches: {:?} vs {:?}", FORMS[form as usize], case.items, snap(&a), snap(&b)), sig: "conv/-/nondeterministic".into() });
+        }
+        for (i, op) in case.ops.iter().enumerate() {
+            let tok = crate::ops::token(i, 0);
+            let mut res = Vec::new();
+            for c in [&mut a, &mut b] {
+                let r = match op {
+                    COp::Put(k) => match c.put(TKey::new(*k), TVal::new(tok)) {
+                        caches::PutResult::Put => "Put".to_string(),
+                        caches::PutResult::Update(x) => format!("Update({})", x.read()),
+                        caches::PutResult::Evicted { key, value } => format!("Evicted({}, {})", key.read(), value.read()),
+                        caches::PutResult::EvictedAndUpdate { evicted, update } => format!("EvictedAndUpdate(({}, {}), {})", evicted.0.read(), evicted.1.read(), update.read()),
+                    },
+                    COp::Get(k) => format!("{:?}", c.get(&TKey::new(*k)).map(|x| x.read())),
+                    COp::GetMut(k) => format!("{:?}", c.get_mut(&TKey::new(*k)).map(|x| x.read())),
+                    COp::Peek(k) => format!("{:?}", c.peek(&TKey::new(*k)).map(|x| x.read())),
+                    COp::Contains(k) => format!("{}", c.contains(&TKey::new(*k))),
+                    COp::Remove(k) => format!("{:?}", c.remove(&TKey::new(*k)).map(|x| x.read())),
+                    COp::RemoveLru => format!("{:?}", c.remove_lru().map(|(k, x)| (k.read(), x.read()))),
+                    COp::Resize(n) => format!("{}", c.resize(*n as usize)),
+                    COp::CloneSwap => {
+                        let d = c.clone();
+                        *c = d;
+                        String::new()
+                    }
+                    COp::Purge => {
+                        c.purge();
+                        String::new()
+                    }
+                    COp::IterBack => format!("{:?}", c.iter_lru().next().map(|(k, x)| (k.read(), x.read()))),
+                };
+                res.push(r);
+            }
+            if res[0] != res[1] || snap(&a) != snap(&b) {
+                return Some(Violation { prop: "C17", step: i + 1, msg: format!("step {i} {op:?}: two caches converted ({}) from the same pairs (keys {:?}) diverge: results {:?}, states {:?} vs {:?}", FORMS[form as usize], case.items, res, snap(&a), snap(&b)), sig: "conv/-/nondeterministic".into() });
+            }
+        }
+        None
+    }));
+    match r {
+        Ok(v) => rep.violation = v,
+        Err(_) => rep.aborted_by_panic = Some(take_last_panic().unwrap_or_default()),
+    }
+    let _ = take_bad();
+    let distinct: BTreeSet<u16> = case.items.iter().copied().collect();
+    rep.nontrivial = distinct.len() >= 3;
+    rep
+}
